@@ -2,6 +2,7 @@ package chainsim
 
 import (
 	"bytes"
+	"encoding/binary"
 	"fmt"
 	"os"
 	"path/filepath"
@@ -282,6 +283,12 @@ func runCrash(p *Plan, tree *refTree, res *simcore.Result) {
 		cuts = []uint64{p.OnlyCut - 1}
 	case p.MaxCuts > 0 && uint64(p.MaxCuts) < h.endSeq+1:
 		pick := map[uint64]bool{}
+		var rewinds []resolved
+		for _, o := range h.ops {
+			if (o.kind == "sethead" || o.kind == "setcanon") && !o.skipped && o.endSeq > o.startSeq {
+				rewinds = append(rewinds, o)
+			}
+		}
 		for tries := 0; len(pick) < p.MaxCuts && tries < 10*p.MaxCuts; tries++ {
 			var c uint64
 			switch {
@@ -291,6 +298,10 @@ func runCrash(p *Plan, tree *refTree, res *simcore.Result) {
 				if cr.Bool(0.3) && c > 0 {
 					c--
 				}
+			case len(rewinds) > 0 && cr.Bool(0.25):
+				// inside a SetHead / SetCanonical: markers move first, data and state follow
+				o := rewinds[cr.Intn(len(rewinds))]
+				c = o.startSeq + uint64(cr.Intn(int(o.endSeq-o.startSeq)+1))
 			case cr.Bool(0.25) && len(h.ops) > 0:
 				// exactly between two operations
 				c = h.ops[cr.Intn(len(h.ops))].endSeq
@@ -422,6 +433,9 @@ func (rb *rebooter) run(model *simdisk.FSModel, img map[string][]byte, mem *memo
 	}
 	simos.ResetLocks()
 	kv := simdisk.FromMem(mem, nil)
+	if rb.p.Knobs.ValueScale > 1 {
+		kv.ValueSizeScale = rb.p.Knobs.ValueScale
+	}
 	w := &world{knobs: rb.p.Knobs, tree: rb.tree, root: nroot, clock: kv.Clock, kv: kv, engine: rb.engine, res: rb.res, bubble: true,
 		live: map[logKey]bool{}, universe: rb.tree.universe(), trace: simcore.NewHash(), stateFP: simcore.NewHash(), headNode: -1, finalNode: -2, dupLogBlock: -2, crashed: true, unexecuted: map[int]bool{}, badBlock: -2}
 	defer func() {
@@ -440,9 +454,8 @@ func (rb *rebooter) run(model *simdisk.FSModel, img map[string][]byte, mem *memo
 		if err != nil {
 			v := viol("reboot-open-failed", "rawdb.Open on the crash image failed: %v", err)
 			v.Key = "reboot-open-failed:" + rb.modeKey() + ":" + classOf(err.Error())
-			if k := rb.h.opAt(rb.cut); (strings.Contains(err.Error(), "already extracted") || strings.Contains(err.Error(), "gap in the chain between ancients")) && k >= 0 && k < len(rb.h.ops) &&
-				(rb.h.ops[k].kind == "insert" || rb.h.ops[k].kind == "setcanon") && !rb.tree.isAncestorOrSelf(rb.headBefore(k), rb.h.ops[k].headAfter) &&
-				rawdb.ReadHeadHeaderHash(kv) == rb.tree.blockOf(rb.headBefore(k)).Hash() {
+			if (strings.Contains(err.Error(), "already extracted") || strings.Contains(err.Error(), "gap in the chain between ancients")) &&
+				rb.lastUnitIsReorgDeletion(headNumber(kv)) {
 				// same window as reboot-canon-gap:reorg-deletes-old-index-before-moving-head, with the
 				// fork point at genesis or at the last frozen block: the canonical hash right above
 				// the freezer is gone while the head markers still name the old head, and rawdb.Open
@@ -454,6 +467,7 @@ func (rb *rebooter) run(model *simdisk.FSModel, img map[string][]byte, mem *memo
 		w.db = db
 		// what the image durably holds, read before the chain touches it
 		bound, boundWhy = rb.noLossBound(db)
+		rb.probeRewindWindow(db)
 		bc, err := core.NewBlockChain(db, rb.tree.gspec, rb.engine, rb.p.Knobs.configWait(nroot, false))
 		if err != nil {
 			v := viol("reboot-chain-failed", "NewBlockChain on the crash image failed: %v", err)
@@ -522,20 +536,13 @@ func (rb *rebooter) judge(w *world, bound int64, boundWhy string) *simcore.Viola
 	cv, v := w.canon()
 	if v != nil {
 		v = pre(v)
-		if v.Oracle == "reboot-canon-gap" && opk >= 0 && opk < len(rb.h.ops) && (rb.h.ops[opk].kind == "setcanon" || rb.h.ops[opk].kind == "insert") {
-			before := -1
-			if opk > 0 {
-				before = rb.h.ops[opk-1].headAfter
-			}
-			if !rb.tree.isAncestorOrSelf(before, rb.h.ops[opk].headAfter) && w.gapAt == bc.CurrentHeader().Number.Uint64() &&
-				bc.CurrentHeader().Hash() == rb.tree.blockOf(before).Hash() {
-				// the head markers still name the operation's old head and it is that very block
-				// whose canonical hash is gone
-				// a reorganisation whose first new block sits directly on the old canonical chain:
-				// reorg() deletes the old canonical hashes above the fork point in one batch, the
-				// head markers move in a later one (writeHeadBlock)
-				v.Key = "reboot-canon-gap:reorg-deletes-old-index-before-moving-head"
-			}
+		if v.Oracle == "reboot-canon-gap" && w.gapAt == bc.CurrentHeader().Number.Uint64() && rb.lastUnitIsReorgDeletion(bc.CurrentHeader().Number.Uint64()) {
+			// the last key-value unit before the crash is reorg()'s batch that deletes the old
+			// canonical hashes above the fork point (incl. the one of the block the head markers
+			// still name); the head markers move in a later unit (writeHeadBlock). Reached by a
+			// side block / equal-height competitor / SetCanonical(ancestor) on the canonical chain
+			// and by InsertChain re-executing pruned canonical ancestors ("Shorten chain")
+			v.Key = "reboot-canon-gap:reorg-deletes-old-index-before-moving-head"
 		}
 		if tail, _ := w.db.Tail(rawdb.ChainFreezerBlockDataGroup); tail > 0 && strings.HasPrefix(v.Oracle, "reboot-canon-") {
 			// chain freezer tables that were not yet covered by the interrupted SyncAncient lose
@@ -812,4 +819,73 @@ func (rb *rebooter) restartedBefore() bool {
 		}
 	}
 	return false
+}
+
+// probeRewindWindow counts the images that sit in the window "head markers already
+// lowered, persistent state not yet rolled back" (path scheme: the marker block's state
+// is only recoverable from the state history).
+func (rb *rebooter) probeRewindWindow(db ethdb.Database) {
+	if rb.p.Knobs.Scheme != rawdb.PathScheme {
+		return
+	}
+	m := rb.tree.nodeOf(rawdb.ReadHeadBlockHash(db))
+	if m == -2 {
+		return
+	}
+	blob := rawdb.ReadAccountTrieNode(db, nil)
+	if len(blob) == 0 {
+		return
+	}
+	disk := crypto.Keccak256Hash(blob)
+	for i := range rb.tree.nodes {
+		n := rb.tree.nodes[i]
+		if n.block.Root() == disk && rb.tree.isAncestorOrSelf(m, i) && i != m {
+			// the disk layer is at a descendant of the marker block
+			rb.res.Probe("image-head-marker-below-disk-layer")
+			if m == -1 {
+				rb.res.Probe("image-head-marker-genesis-below-disk-layer")
+			}
+			return
+		}
+	}
+}
+
+// headNumber is the number of the block the image's head header marker names.
+func headNumber(db ethdb.KeyValueReader) uint64 {
+	n, _ := rawdb.ReadHeaderNumber(db, rawdb.ReadHeadHeaderHash(db))
+	return n
+}
+
+// lastUnitIsReorgDeletion: the last key-value unit in the image is a batch that only
+// deletes canonical number->hash entries ('h' num 'n') and tx lookups ('l' hash), among
+// them the canonical hash of block number head.
+func (rb *rebooter) lastUnitIsReorgDeletion(head uint64) bool {
+	log := rb.h.kvlog
+	n := sort.Search(len(log), func(i int) bool { return log[i].Seq > rb.cut })
+	n -= rb.lost
+	if n <= 0 {
+		return false
+	}
+	op := &log[n-1]
+	if op.Kind != simdisk.OpBatch || len(op.Batch) == 0 {
+		return false
+	}
+	hit := false
+	for i := range op.Batch {
+		sub := &op.Batch[i]
+		if sub.Kind != simdisk.OpDelete {
+			return false
+		}
+		k := sub.Key
+		switch {
+		case len(k) == 10 && k[0] == 'h' && k[9] == 'n':
+			if binary.BigEndian.Uint64(k[1:9]) == head {
+				hit = true
+			}
+		case len(k) == 33 && k[0] == 'l':
+		default:
+			return false
+		}
+	}
+	return hit
 }
